@@ -24,8 +24,10 @@ def programs(tier):
 def jobs(tier):
     types, cls = corpus.classes()
     cfg = {"lens": [0, 1], "counts": [0, 1, 2]} if tier == "quick" else {"lens": [0, 1, 2], "counts": [0, 1, 2]}
-    js = [dict(name=f"immutable[{c['name']}]", fn="immutable", args=[corpus.closure(types, c["instrs"]), c, cfg], tree="core", collect_models=2,
-               expect=["serializing the same instance twice yields identical bytes"]) for c in cls]
+    CANDS = [{"lens": [0, 1], "counts": [0, 1]}, {"lens": [0, 1], "counts": [0, 1, 2]}, {"lens": [0, 1, 2], "counts": [0, 1, 2]}]
+    js = [dict(name=f"immutable[{c['name']}]", fn="immutable", args=[corpus.closure(types, c["instrs"]), c,
+                                                                  cfg if tier == "quick" else corpus.choose_cfg(types, c["instrs"], [{"lens": [0, 1], "counts": [0, 1]}, {"lens": [0, 1], "counts": [0, 1, 2]}, {"lens": [0, 1, 2], "counts": [0, 1, 2]}], 1500)],
+               tree="core", collect_models=2, expect=["serializing the same instance twice yields identical bytes"]) for c in cls]
     _, ptypes, pcls = corpus.pairs(tier, corpus.seed(), 80)
     pcfg = {"lens": [0, 1], "counts": [0, 1]}
     js += [dict(name=f"immutable[pairs:{c['name']}]", fn="immutable", args=[corpus.closure(ptypes, c["instrs"]), c, pcfg], tree="pairs", collect_models=1,
